@@ -37,7 +37,9 @@ field from the file as it is (no truthiness default). C07.6: the guard
 constant equals the layout width used by the slices. C07.7: the validity test
 load_transform relies on (is_sim3 / is_so3 / sim3_scale) is the conjunction of
 all necessary conditions and does not let reflections through (instances of
-C09.3).
+C09.3). C07.8: the trajectory constructors store the arrays the readers hand
+them as given (array conversion / copy only — no normalisation, scaling or
+rounding).
 """
 UNDECIDED = [
     "that the vendored quaternion_matrix implements the Hamilton convention "
@@ -65,7 +67,7 @@ MANIFEST = dict(
               "inventory + sibling-branch comparison",
 )
 FLOORS = {"C07.1": 10, "C07.2": 4, "C07.3": 3, "C07.4": 4, "C07.5": 12,
-          "C07.6": 3, "C07.7": 5}
+          "C07.6": 3, "C07.7": 5, "C07.8": 4}
 
 FI = "evo.tools.file_interface."
 TUM = ("t", "x", "y", "z", "qx", "qy", "qz", "qw")
@@ -579,6 +581,64 @@ def check(ctx):
     ctx.section(_csv, ctx, prog)
     ctx.section(_transform, ctx, prog)
     ctx.section(_messages, ctx, prog)
+    ctx.section(_constructors, ctx, prog)
+
+
+def _constructors(ctx, prog):
+    """C07.8: every reader hands the parsed columns to the trajectory
+    constructors; 'exactly the numbers in the file' needs them to be stored
+    as given — converted to an array, copied, but not rescaled, normalised,
+    rounded or reordered."""
+    from ..lib import strip_asarray, strip_copies
+    TR = "evo.core.trajectory."
+    fields = (("PosePath3D", "positions_xyz", "_positions_xyz"),
+              ("PosePath3D", "orientations_quat_wxyz",
+               "_orientations_quat_wxyz"),
+              ("PosePath3D", "poses_se3", "_poses_se3"),
+              ("PoseTrajectory3D", "timestamps", "timestamps"))
+    for cls, par, attr in fields:
+        f = prog.func(f"{TR}{cls}.__init__")
+        ctx.analysed_fn(f.qualname)
+        p = tm.param(par)
+
+        def given(t: T, p=p):
+            if t.op == "cmp" and t.args[0] in ("Is", "IsNot") and \
+                    t.args[1] is p and t.args[2] is tm.NONE:
+                return t.args[0] == "IsNot"
+            return None
+        r = Interp(prog, assume=given).run(f)
+        v = r.attrs.get((tm.param(f.params[0]), attr))
+        if v is None:
+            ctx.undecidable("C07.8", f, f"{cls}: `{attr}` is not stored by "
+                            f"the constructor (unknown idiom)")
+            continue
+        v = tm.select(v, given)
+        core = strip_asarray(strip_copies(v))
+        # np.array(x, dtype=float) / copy=...: still the values of x
+        if is_call_to(core, "numpy.array", "numpy.asarray") and \
+                len(core.args[1]) == 1 and set(dict(core.args[2])) <= {
+                    "dtype", "copy"}:
+            dt = dict(core.args[2]).get("dtype")
+            if dt is None or dt is tm.glob("builtins.float") or (
+                    dt.op == "global" and dt.args[0] in ("numpy.float64",
+                                                         "numpy.double")):
+                core = strip_asarray(strip_copies(core.args[1][0]))
+        ok = core is p
+        arith = [x for x in v.walk() if x.op in ("binop", "unop") or
+                 (x.op == "call" and (tm.callee_name(x) or "").split(".")[-1]
+                  in ("norm", "round", "around", "divide", "multiply",
+                      "normalize", "astype", "clip", "sort", "flip"))]
+        if not ok and not (arith and any(x is p for x in v.walk())):
+            ctx.undecidable("C07.8", f, f"{cls}: `{attr}` is stored as "
+                            f"{fmt(v)[:100]} (unknown idiom)")
+            continue
+        ctx.ob("C07.8", f, ok,
+               f"{cls}: the given {par} are stored as they are (array "
+               f"conversion / copy only)" if ok else
+               f"{cls}: the given {par} are changed before they are stored "
+               f"({fmt(arith[0])[:80]}): what a reader parsed from the file "
+               f"is no longer what the trajectory holds",
+               key=f"C07.8:{cls}:{par}")
 
 
 # --------------------------------------------------------------------- C07.2
